@@ -273,6 +273,34 @@ def shim_modules(names):
             m.np = SHIM
 
 
+class CopyShim:
+    """stand-in for the ``copy`` module of a repo module: ``copy.deepcopy`` of a symbolic number goes through
+    ``__reduce_ex__`` and REALIZES it (the path is then concrete in that value and the exploration enumerates values).
+    Containers are copied recursively, (immutable) symbolic numbers and str / int / float / bool / None leaves are shared;
+    anything else is handed to the real ``copy.deepcopy``."""
+
+    def deepcopy(self, x, memo=None):
+        import copy as _copy
+        if isinstance(x, dict) and type(x) is dict:
+            return {k: self.deepcopy(v) for k, v in x.items()}
+        if type(x) is list:
+            return [self.deepcopy(v) for v in x]
+        if type(x) is tuple:
+            return tuple(self.deepcopy(v) for v in x)
+        if is_sym(x) or x is None or type(x) in (int, float, bool, str):
+            return x
+        return _copy.deepcopy(x)
+
+    def copy(self, x):
+        import copy as _copy
+        return _copy.copy(x)
+
+
+def shim_copy(names):
+    for n in names:
+        importlib.import_module(n).copy = CopyShim()
+
+
 def shim_selftest():
     """translation validation of the shim on concrete arguments (must agree with numpy)"""
     n = 0
@@ -505,8 +533,14 @@ class SymRandomState:
 
     def choice(self, a, size=None, replace=True, p=None):
         n = a if isinstance(a, int) else len(a)
-        i = self.sym.choice(self._name("c"), n)
-        return i if isinstance(a, int) else a[i]
+
+        def one():
+            i = self.sym.choice(self._name("c"), n)
+            return i if isinstance(a, int) else a[i]
+        if size is None:
+            return one()
+        k = size if isinstance(size, int) else size[0]
+        return [one() for _ in range(k)]
 
 
 def _patch_shim_more():
